@@ -7,6 +7,10 @@ mod unix {
     }
 
     pub fn get_cols() -> Option<usize> {
+        #[cfg(feature = "verif")]
+        if let Some(cols) = crate::verif::cols_override() {
+            return cols;
+        }
         if cfg!(miri) {
             return None;
         }
